@@ -47,7 +47,7 @@ fn headroom(case: &Case, sw: u32, sh: u32, dw: u32, dh: u32) -> f64 {
     worst
 }
 
-pub fn generate(out: &mut Out, seed: u64, thorough: bool, outdir: &str) {
+pub fn generate(out: &mut Out, seed: u64, thorough: bool, _outdir: &str) {
     let mut rng = Rng::new(seed ^ 0xC03);
     GUARD_PAGES.store(true, std::sync::atomic::Ordering::Relaxed);
     let n = if thorough { 16000 } else { 3600 };
@@ -85,6 +85,13 @@ pub fn generate(out: &mut Out, seed: u64, thorough: bool, outdir: &str) {
                 case.crop = CropSpec::Fit(0.5, 0.5); // NaN centering is outside the property
             }
         }
+        if sw > 0 && sh > 0 && rng.chance(1, 9) {
+            // boxes within one ulp of the right / bottom edge (Nearest reads the last column / row)
+            case.crop = crate::rprops::flush_crop(&mut rng, sw, sh);
+            if rng.chance(1, 2) {
+                case.alg = AlgSpec::nearest();
+            }
+        }
         // algorithms: every multiplicity incl. 0 and 255, custom kernels
         match rng.below(6) {
             0 => case.alg = AlgSpec::ss(rng.below(7) as usize, *rng.pick(&[0u8, 1, 2, 7, 100, 255])),
@@ -101,6 +108,19 @@ pub fn generate(out: &mut Out, seed: u64, thorough: bool, outdir: &str) {
             }
             _ => {}
         }
+        // big down-scales with custom kernels inside the head-room: windows of hundreds of taps reach the highest
+        // fixed-point precision, where the accumulators have the least room
+        if rng.chance(1, 14) {
+            let long = rng.range(300, 1500) as u32;
+            let horiz = rng.chance(1, 2);
+            let c = Custom::Lobes(1.0, 0.15 + 0.3 * rng.f64_unit());
+            case.custom = Some(c);
+            case.alg = AlgSpec::custom(c, 0, 1);
+            case.crop = CropSpec::None;
+            case.dynamic = false;
+            case.sshape = if horiz { plain(long, rng.range(1, 3) as u32) } else { plain(rng.range(1, 3) as u32, long) };
+            case.dshape = plain(rng.range(1, 2) as u32, rng.range(1, 2) as u32);
+        }
         // containers
         if !case.dynamic && sw > 0 && sh > 0 && dw > 0 && dh > 0 && rng.chance(1, 3) {
             case.sshape = placements(sw, sh, rng.below(PLACEMENTS as u64) as usize);
@@ -110,12 +130,11 @@ pub fn generate(out: &mut Out, seed: u64, thorough: bool, outdir: &str) {
         if case.dynamic && (case.sshape.depth() > 0 || case.dshape.depth() > 0) {
             case.dynamic = false;
         }
+        let (sw, sh, dw, dh) = (case.sshape.width(), case.sshape.height(), case.dshape.width(), case.dshape.height());
         let hr = headroom(&case, sw, sh, dw, dh);
         let in_guard = hr < 3.999 && hr.is_finite();
         let prefix = line_prefix(&case);
         // record the case before executing it: a crash is then attributed to this input
-        let short: String = prefix.chars().take(1500).collect();
-        std::fs::write(format!("{}/current.txt", outdir), &short).ok();
         let reuse = rng.chance(1, 3);
         let got = if reuse { run_case_with(&case, &mut shared, 0xA5) } else { run_case(&case, 0xA5) };
         let outcome = got.split(':').next().unwrap().to_string();
@@ -131,6 +150,5 @@ pub fn generate(out: &mut Out, seed: u64, thorough: bool, outdir: &str) {
         let k = fnv(line.as_bytes());
         out.push(line, Some(k));
     }
-    std::fs::remove_file(format!("{}/current.txt", outdir)).ok();
     let _ = PixelType::U8;
 }
